@@ -10,7 +10,10 @@ mod zoo;
 mod c01;
 mod c02;
 mod p3forge;
+mod c03;
+mod c04;
 mod c05;
+mod poplar_util;
 mod c06;
 mod c07;
 mod c08;
@@ -51,6 +54,8 @@ fn main() {
     let r = std::panic::catch_unwind(std::panic::AssertUnwindSafe(|| match prop.as_str() {
         "C01" => c01::run(&mut ctx),
         "C02" => c02::run(&mut ctx),
+        "C03" => c03::run(&mut ctx),
+        "C04" => c04::run(&mut ctx),
         "C05" => c05::run(&mut ctx),
         "C06" => c06::run(&mut ctx),
         "C07" => c07::run(&mut ctx),
